@@ -1015,6 +1015,13 @@ func firstOr(errs []error) error {
 	return errs[0]
 }
 
+// fieldErrs is the classic typed-nil mistake: a nil *fieldErrs returned as a
+// non-nil error; inspecting it (Unwrap) dereferences nil and panics.
+type fieldErrs struct{ errs []error }
+
+func (f *fieldErrs) Error() string   { return "field errors" }
+func (f *fieldErrs) Unwrap() []error { return f.errs }
+
 // c12Session drives one Collector through a sequential program that uses
 // every way errors get into it (Add, Handler, Check, Collect, When, Recover,
 // WithRecoverCall / WithRecoverDo, RecoverHook, Consume, Stream) and looks
@@ -1027,6 +1034,7 @@ func c12Session(r *kit.Run, idx int64, rng *rand.Rand) {
 	panics := 0      // recovered panics
 	others := 0      // additions that cannot be asked about by identity (When)
 	var log []string
+	poisoned, wedged := false, false // an error whose inspection panics was added; the collector blocked
 	r.Eval()
 	desc := func() map[string]any { return map[string]any{"mode": "collector-session", "steps": log} }
 	viol := func(kind, detail string) { r.Violation("C12/Collector.session/"+kind, idx, desc(), detail, nil) }
@@ -1040,7 +1048,7 @@ func c12Session(r *kit.Run, idx int64, rng *rand.Rand) {
 			res = ec.Future()()
 		case "Len":
 			n := ec.Len()
-			if (n == 0) != (len(want)+panics+others == 0) || n < len(want) {
+			if (n == 0) != (len(want)+panics+others == 0) && !poisoned || n < len(want) {
 				viol("len-mismatch", fmt.Sprintf("Len()=%d after %d errors and %d recovered panics were added", n, len(want)+others, panics))
 				return false
 			}
@@ -1063,7 +1071,7 @@ func c12Session(r *kit.Run, idx int64, rng *rand.Rand) {
 			}
 			return true
 		}
-		if (res == nil) != (len(want)+panics+others == 0) {
+		if (res == nil) != (len(want)+panics+others == 0) && !(poisoned && len(want)+panics+others == 0) {
 			viol("nil-ness", fmt.Sprintf("%s() is %v after %d errors and %d recovered panics were added", how, res, len(want)+others, panics))
 			return false
 		}
@@ -1106,7 +1114,7 @@ func c12Session(r *kit.Run, idx int64, rng *rand.Rand) {
 				}
 				continue
 			}
-			op := []string{"Add", "Add(nil)", "Handler", "Check", "Check(nil)", "Collect", "When", "When(false)", "Recover", "WithRecoverCall", "WithRecoverCall(no panic)", "WithRecoverDo", "RecoverHook", "RecoverHook(string)", "RecoverHook(no panic)", "Consume", "Stream", "Add(join)"}[rng.IntN(18)]
+			op := []string{"Add", "Add(nil)", "Handler", "Check", "Check(nil)", "Collect", "When", "When(false)", "Recover", "WithRecoverCall", "WithRecoverCall(no panic)", "WithRecoverDo", "RecoverHook", "RecoverHook(string)", "RecoverHook(no panic)", "Consume", "Stream", "Add(join)", "Add(error whose Unwrap panics)"}[rng.IntN(19)]
 			log = append(log, op)
 			kinds[op] = true
 			switch op {
@@ -1199,11 +1207,31 @@ func c12Session(r *kit.Run, idx int64, rng *rand.Rand) {
 				close(ch)
 				erc.Stream(context.Background(), ec, ch)
 				want = append(want, e)
+			case "Add(error whose Unwrap panics)":
+				// whatever Add does with it (panic to its caller, or store it): the
+				// collector must stay usable afterwards
+				var fe *fieldErrs
+				kit.Guard(func() { ec.Add(fe) })
+				poisoned = true
+				done := make(chan struct{})
+				go func() { _ = ec.Len(); close(done) }()
+				if met, q, cs := kit.Await(3*time.Second, 20*time.Second, func() bool { return isClosed(done) }); !met {
+					if q {
+						viol("collector-wedged", fmt.Sprintf("after Add of an error whose Unwrap() panics, Len() does not return any more; at quiescence: %v", clipStrs(cs.Describe(), 6)))
+					} else {
+						r.Inconclusive("C12 session: Len() after a poisoned Add did not return, not quiescent")
+					}
+					wedged = true
+					return
+				}
 			case "Add(join)":
 				e1, e2 := mk(), seqErr(-len(log)-1)
 				ec.Add(ers.Join(e1, nil, e2))
 				want = append(want, e1, e2)
 			}
+		}
+		if wedged {
+			return
 		}
 		log = append(log, "Resolve")
 		if !look("Resolve") {
@@ -1212,6 +1240,9 @@ func c12Session(r *kit.Run, idx int64, rng *rand.Rand) {
 		log = append(log, "Len")
 		look("Len")
 	})
+	if wedged {
+		return // the goroutine that is stuck in the collector stays behind; reported above
+	}
 	if panicked {
 		viol("panic", fmt.Sprintf("panic: %v\n%s", pv, clipS(pst, 1200)))
 		return
